@@ -77,6 +77,6 @@ def main():
         json.dump(man, f, indent=1)
     print("checks:", [c["property_id"] for c in checks])
 
-HOOK_COMMITS = []
+HOOK_COMMITS = ["faa9ac5"]
 if __name__ == "__main__":
     main()
